@@ -90,6 +90,29 @@ Theorem C13_inplace_tied_values_refuted :
 Proof. exact ex_D134. Qed.
 Print Assumptions C13_inplace_tied_values_refuted.
 
+(* inplace=True, one leaf: a regular module keeps the very object under the name (and under every other name) *)
+Theorem C13_inplace_keeps_identity : forall n k x st,
+  let '(n', out, st') := set_tensor_dict n k x true st in
+  wf3 (slot3 n k) -> out <> None ->
+  slot3 n' k = slot3 n k /\ (forall k', k' <> k -> slot3 n' k' = slot3 n k') /\ m_custom n' = m_custom n /\ m_subs n' = m_subs n.
+Proof. exact std_slot_inplace. Qed.
+Print Assumptions C13_inplace_keeps_identity.
+
+(* ---- use_state_dict=True (D132) and swap_dest= (D133): the model reproduces both defects *)
+Theorem C13_use_state_dict_refuted :
+  let '(st', evs, oc) := run_blocks (mkExc XNone 0 false) [ex_b5] 0 (mkSt ex_heap4 ex_vals FRESH_BASE) in
+  Forall (fun e => ev_out e = OOk) evs /\ ~ all_sloteq st' (mkSt ex_heap4 ex_vals FRESH_BASE)
+  /\ exists n', hg st' 0%Z = Some n'
+       /\ match d_get (m_params n') "w" with Some (Some o) => ostor o = 1%Z /\ okd o = KParam /\ oid o <> 1%Z | _ => False end.
+Proof. exact ex_D132. Qed.
+Print Assumptions C13_use_state_dict_refuted.
+
+Theorem C13_swap_dest_refuted :
+  let '(st', evs, oc) := run_blocks (mkExc XNone 0 false) [ex_b6] 0 (mkSt ex_heap4 ex_vals FRESH_BASE) in
+  oc = ORaise ETypeError /\ enters_ok evs /\ ~ all_sloteq st' (mkSt ex_heap4 ex_vals FRESH_BASE).
+Proof. exact ex_D133. Qed.
+Print Assumptions C13_swap_dest_refuted.
+
 (* ---- params_registration: after any sequence of updates issued on the TensorDictParams itself, _parameters and
    _buffers are exactly the leaves (flattened names assumed pairwise different, i.e. no "."-collision) *)
 Theorem C13_params_registration : forall ops s,
